@@ -13,6 +13,7 @@ mod lax_ops;
 mod rng;
 mod strict_ops;
 mod tables;
+mod var_ops;
 
 use serde_json::{json, Value};
 use std::io::{BufRead, BufWriter, Write};
